@@ -364,6 +364,19 @@ C17_LeaseHolds ==
     /\ \A k \in DOMAIN NewAfter :
          (NewAfter[k].type \in {"VoteResp", "PreVoteResp"} /\ ~NewAfter[k].reject)
            => (NewAfter[k].term <= Pre.term /\ NewAfter[k].to = Pre.vote)
+\* the same, with "heard from within the last election timeout" measured by the specification (ticks since
+\* the last append, heartbeat or snapshot of the followed leader) instead of by raft's own counter
+C17_LeaseFromContact ==
+  (BothUp /\ A.name = "Deliver" /\ A.msg.type \in {"Vote", "PreVote"} /\ A.msg.ctxKind # "transfer"
+     /\ Cfg(I).checkQuorum /\ Pre.lead # None /\ Pre.role = "F" /\ hist.sinceLead[I] < Cfg(I).electionTick) =>
+    /\ Post.term = Pre.term /\ Post.vote = Pre.vote
+    /\ \A k \in DOMAIN NewAfter :
+         (NewAfter[k].type \in {"VoteResp", "PreVoteResp"} /\ ~NewAfter[k].reject)
+           => (NewAfter[k].term <= Pre.term /\ NewAfter[k].to = Pre.vote)
+\* ... nor does such a follower raise its term by campaigning on a tick
+C17_NoCampaignInLease ==
+  (BothUp /\ A.name = "Tick" /\ Cfg(I).checkQuorum /\ Pre.lead # None /\ Pre.role = "F"
+     /\ hist.sinceLead[I] < Cfg(I).electionTick) => (Post.term = Pre.term /\ Post.role = "F")
 \* a leader that heard from no quorum for two election timeouts of its own ticks is gone
 C17_CheckQuorumStepDown ==
   (BothUp /\ A.name = "Tick" /\ Cfg(I).checkQuorum /\ Post.role = "L" /\ Pre.role = "L" /\ Pre.term = Post.term
@@ -439,7 +452,7 @@ AllInvariants ==
   /\ C14_NoPanic
   /\ C15_Converged
   /\ C16_MsgSizeBound /\ C16_InflightBound /\ C16_NoAppendDuringSnapshot /\ C16_UncommittedBound /\ C16_DropIffOver
-  /\ C17_PreVoteBeforeTerm /\ C17_PreVoteNoStateChange /\ C17_LeaseHolds /\ C17_CheckQuorumStepDown
+  /\ C17_PreVoteBeforeTerm /\ C17_PreVoteNoStateChange /\ C17_LeaseHolds /\ C17_LeaseFromContact /\ C17_NoCampaignInLease /\ C17_CheckQuorumStepDown
   /\ C19_SameOutputs
   /\ C20_NothingInvented /\ C20_AtMostOncePerDelivery /\ C20_ProposedAtLeaderOnce /\ C20_QueuedIntact /\ C20_ForwardIntact /\ C20_DroppedMeansDropped
 =============================================================================
